@@ -16,6 +16,7 @@ structure Layout where
   osF : Nat
   nHdr : Nat               -- number of leading items that belong to the object header
   items : List Item        -- everything after the signature; the last one may be `pad osF 4`
+  pre : List (Nat × Expr)  -- write-side pre-processing assignments before headerSize/objectSize
   deriving Repr, Inhabited
 
 def lensOf : List Item → List (Nat × Nat × Nat)
@@ -32,7 +33,24 @@ def lenAssigns (L : List Item) : List (Nat × Expr) :=
   (lensOf L).map fun p => (p.1, .cast (widthOf L p.1) (.bsize p.2.1 p.2.2))
 
 def preAssigns (c : Codec) (lay : Layout) : List (Nat × Expr) :=
-  lenAssigns lay.items ++ [(lay.hsF, c.hdrSizeExpr), (lay.osF, c.sizeExpr)]
+  lay.pre ++ [(lay.hsF, c.hdrSizeExpr), (lay.osF, c.sizeExpr)]
+
+/-- is `(g, e)` the length pre-assignment of some `var` item of `L` ? -/
+def isLenAssign (L : List Item) (g : Nat) (e : Expr) : Bool :=
+  (lensOf L).any fun p => p.1 == g && e == .cast (widthOf L g) (.bsize p.2.1 p.2.2)
+
+def isConstExpr : Expr → Bool
+  | .const _ => true
+  | _ => false
+
+/-- the pre-processing block: targets pairwise distinct and different from signature / headerSize /
+    objectSize; every entry is a constant or the length assignment of a `var` item; every `var` item has
+    its length assignment. -/
+def preOK (lay : Layout) : Bool :=
+  let tg := lay.pre.map (·.1)
+  tg.Nodup && !tg.contains lay.sigF && !tg.contains lay.hsF && !tg.contains lay.osF &&
+  (lay.pre.all fun p => (isConstExpr p.2 && !(lensOf lay.items).any (·.1 == p.1)) || isLenAssign lay.items p.1 p.2) &&
+  ((lensOf lay.items).all fun q => lay.pre.any fun p => p.1 == q.1 && isLenAssign lay.items p.1 p.2)
 
 def assignStmts (as : List (Nat × Expr)) : List Stmt := as.map fun p => .assign p.1 p.2
 
@@ -59,6 +77,7 @@ def regularCheck (c : Codec) (lay : Layout) : Bool :=
   decide (c.readProg = Stmt.block (.sync lay.sigF :: canonRd L)) &&
   decide (c.writeProg = Stmt.block (assignStmts (preAssigns c lay) ++ .wr lay.sigF 4 :: canonWr L)) &&
   itemsOK [lay.sigF] [] L &&
+  preOK lay &&
   sp.1.all Item.noFill &&
   decide (L = if sp.2 then sp.1 ++ [.pad lay.osF 4] else sp.1) &&
   (match linearize c.sizeExpr with
@@ -89,6 +108,7 @@ structure Reg (c : Codec) (lay : Layout) : Prop where
   rd : c.readProg = Stmt.block (.sync lay.sigF :: canonRd lay.items)
   wr : c.writeProg = Stmt.block (assignStmts (preAssigns c lay) ++ .wr lay.sigF 4 :: canonWr lay.items)
   ok : itemsOK [lay.sigF] [] lay.items = true
+  pre : preOK lay = true
   nf : (splitPad lay.osF lay.items).1.all Item.noFill = true
   sp : lay.items = if (splitPad lay.osF lay.items).2 then (splitPad lay.osF lay.items).1 ++ [.pad lay.osF 4]
                    else (splitPad lay.osF lay.items).1
@@ -99,8 +119,8 @@ structure Reg (c : Codec) (lay : Layout) : Prop where
 
 theorem regularCheck_sound (c : Codec) (lay : Layout) (h : regularCheck c lay = true) : Reg c lay := by
   simp only [regularCheck, Bool.and_eq_true, decide_eq_true_eq] at h
-  obtain ⟨⟨⟨⟨⟨⟨⟨h1, h2⟩, h3⟩, h4⟩, h5⟩, h6⟩, h7⟩, h8⟩ := h
-  refine ⟨h1, h2, h3, h4, h5, ?_, h7, h8⟩
+  obtain ⟨⟨⟨⟨⟨⟨⟨⟨h1, h2⟩, h3⟩, hp⟩, h4⟩, h5⟩, h6⟩, h7⟩, h8⟩ := h
+  refine ⟨h1, h2, h3, hp, h4, h5, ?_, h7, h8⟩
   cases hl : linearize c.sizeExpr with
   | none => simp [hl] at h6
   | some lin =>
@@ -125,6 +145,14 @@ theorem itemsSize_append (o : Obj) (a b : List Item) : itemsSize o (a ++ b) = it
   induction a with
   | nil => simp [itemsSize]
   | cons i a ih => simp [itemsSize, ih, Nat.add_assoc]
+
+theorem itemsOK_prefix (kn bf : List Nat) (a b : List Item) (h : itemsOK kn bf (a ++ b) = true) :
+    itemsOK kn bf a = true := by
+  induction a generalizing kn bf with
+  | nil => simp [itemsOK]
+  | cons i a ih =>
+    simp only [List.cons_append, itemsOK, Bool.and_eq_true] at h ⊢
+    exact ⟨h.1, ih _ _ h.2⟩
 
 theorem var_ew_pos (kn bf : List Nat) (L : List Item) (h : itemsOK kn bf L = true) :
     ∀ f ew len, Item.var f ew len ∈ L → 0 < ew := by
@@ -189,5 +217,131 @@ theorem regular_frame (cfg : Cfg) (c : Codec) (lay : Layout) (hreg : Reg c lay) 
     have e : 4 + itemsConst b + termsEval (pre c lay o) lin.ts = 4 + itemsSize (pre c lay o) b := by omega
     rw [e]
   · rw [hh]; rfl
+
+/-! ## read side -/
+
+theorem SIG_lt : SIG < 256 ^ 4 := by decide
+
+/-- positioned on a signature, the search loop reads exactly these four bytes -/
+theorem exec_sync_at_sig (cfg : Cfg) (hs : cfg.sticky = false) (f : Nat) (st : St)
+    (hlen : st.pos + 4 ≤ st.inp.length) (hsig : (st.inp.drop st.pos).take 4 = leBytes 4 SIG) :
+    (Stmt.sync f).exec cfg st =
+      { st with obj := st.obj.setNum f SIG, pos := st.pos + 4, good := true, eof := false } := by
+  simp only [Stmt.exec]
+  have hf : st.inp.length - st.pos + 2 = (st.inp.length - st.pos + 1) + 1 := by omega
+  rw [hf]
+  simp only [syncLoop, St.sread, hs, Bool.false_and, Bool.false_eq_true, if_false, hlen, if_true, hsig]
+  have : scalarMerge 4 0 (leBytes 4 SIG) = SIG := by
+    rw [scalarMerge_full 4 0 _ (by simp), leVal_leBytes_of_lt SIG_lt]
+  simp [this]
+
+theorem decItems_append (cap : Nat) (a b : List Item) (o : Obj) (s : Bytes) :
+    decItems cap (a ++ b) o s =
+      match decItems cap a o s with
+      | some (o1, s1) => decItems cap b o1 s1
+      | none => none := by
+  induction a generalizing o s with
+  | nil => simp [decItems]
+  | cons i a ih =>
+    simp only [List.cons_append, decItems]
+    cases decItem cap o s i with
+    | none => rfl
+    | some p => obtain ⟨o1, s1⟩ := p; simp only; exact ih o1 s1
+
+theorem drop_eq_pos (l r : Bytes) (p : Nat) (hp : p ≤ l.length) (h : l.drop p = r) : p = l.length - r.length := by
+  have := congrArg List.length h
+  simp at this; omega
+
+/-- **Round trip (C01, per object).** Decoding the encoding of any writer-accepted object, followed by
+    arbitrary bytes, from any start object with correctly sized arrays: no stop, no short read,
+    consumes exactly the encoding, and every field of the layout equals the pre-processed original. -/
+theorem regular_roundtrip (cfg : Cfg) (hs : cfg.sticky = false) (c : Codec) (lay : Layout) (hreg : Reg c lay)
+    (o o0 : Obj) (rest : Bytes)
+    (hwf : ItemsWF (pre c lay o) lay.items) (hsig : (pre c lay o).num lay.sigF = SIG)
+    (harr : ArrOK o0 lay.items)
+    (hcap : ∀ f ew len, Item.var f ew len ∈ lay.items → (pre c lay o).num len * ew ≤ cfg.cap) :
+    (c.decode cfg o0 ((c.encode cfg o).out ++ rest)).halt = .none ∧
+    (c.decode cfg o0 ((c.encode cfg o).out ++ rest)).short = false ∧
+    (c.decode cfg o0 ((c.encode cfg o).out ++ rest)).pos = (c.encode cfg o).out.length ∧
+    Agree (lay.items.filterMap Item.numDef ++ [lay.sigF]) (lay.items.filterMap Item.bufDef)
+      (c.decode cfg o0 ((c.encode cfg o).out ++ rest)).obj (pre c lay o) := by
+  obtain ⟨_, hout, _, _, _⟩ := regular_frame cfg c lay hreg o hwf
+  rw [hout, hsig]
+  unfold Codec.decode
+  rw [hreg.rd, exec_block_cons]
+  have hl4 : (leBytes 4 SIG).length = 4 := by simp
+  rw [exec_sync_at_sig cfg hs _ _ (by simp) (by simp [List.take_append_of_le_length, hl4])]
+  simp only [if_true]
+  have hdrop : (leBytes 4 SIG ++ encItems (pre c lay o) lay.items ++ rest).drop (0 + 4) =
+      encItems (pre c lay o) lay.items ++ rest := by
+    rw [List.append_assoc]; exact (take_append_len _ _ 4 hl4).2
+  have hag : Agree [lay.sigF] [] (({ obj := o0 } : St).obj.setNum lay.sigF SIG) (pre c lay o) := by
+    refine ⟨fun g hg => ?_, fun g hg => by simp at hg⟩
+    simp only [List.mem_singleton] at hg; subst hg; simp [hsig]
+  obtain ⟨o', hd, ha⟩ := dec_enc cfg.cap lay.items [lay.sigF] [] (pre c lay o) _ rest hreg.ok hwf hag hcap
+  have hrd := exec_canonRd cfg hs lay.items [lay.sigF] []
+    { obj := o0.setNum lay.sigF SIG, inp := leBytes 4 SIG ++ encItems (pre c lay o) lay.items ++ rest,
+      pos := 0 + 4, good := true, eof := false } hreg.ok rfl (by simp) (by intro f n h; simpa using harr f n h)
+  simp only [hdrop] at hrd
+  simp only at hd
+  rw [hd] at hrd
+  refine ⟨hrd.halt, hrd.short, ?_, ?_⟩
+  · have := drop_eq_pos _ _ _ hrd.pos hrd.rest
+    rw [this]; simp; omega
+  · rw [hrd.obj]
+    exact ha.mono (fun g hg => hg) (fun g hg => by simpa using hg)
+
+/-- **Left inverse (C02).** Any byte string that starts with the signature and that the decoder
+    processes without stopping and without a short read is the signature, followed by the item
+    encoding of the decoded object's filler-free body, followed by the rest (padding and beyond). -/
+theorem regular_leftinv (cfg : Cfg) (hs : cfg.sticky = false) (c : Codec) (lay : Layout) (hreg : Reg c lay)
+    (o0 : Obj) (b : Bytes) (harr : ArrOK o0 lay.items)
+    (h4 : 4 ≤ b.length) (hb : b.take 4 = leBytes 4 SIG)
+    (hh : (c.decode cfg o0 b).halt = .none) (hsh : (c.decode cfg o0 b).short = false) :
+    ∃ rest, b = leBytes 4 SIG ++ encItems (c.decode cfg o0 b).obj lay.body ++ rest := by
+  unfold Codec.decode at hh hsh ⊢
+  rw [hreg.rd, exec_block_cons] at hh hsh ⊢
+  rw [exec_sync_at_sig cfg hs _ _ (by simpa using h4) (by simpa using hb)] at hh hsh ⊢
+  simp only [if_true] at hh hsh ⊢
+  have hrd := exec_canonRd cfg hs lay.items [lay.sigF] []
+    { obj := o0.setNum lay.sigF SIG, inp := b, pos := 0 + 4, good := true, eof := false } hreg.ok rfl
+    (by simpa using h4) (by intro f n h; simpa using harr f n h)
+  cases hdi : decItems cfg.cap lay.items (o0.setNum lay.sigF SIG) (b.drop (0 + 4)) with
+  | none =>
+    simp only [hdi] at hrd
+    rcases hrd with h | h
+    · rw [h] at hsh; simp at hsh
+    · exact absurd hh h
+  | some p =>
+    obtain ⟨o', r'⟩ := p
+    simp only [hdi] at hrd
+    rw [hrd.obj]
+    have hsp := hreg.sp
+    have hnf := hreg.nf
+    have hok := hreg.ok
+    unfold Layout.body
+    generalize (splitPad lay.osF lay.items).1 = body at hsp hnf ⊢
+    generalize (splitPad lay.osF lay.items).2 = pd at hsp
+    have hb4 : b = leBytes 4 SIG ++ b.drop (0 + 4) := by
+      rw [← hb]; simp
+    cases pd with
+    | false =>
+      simp only [Bool.false_eq_true, if_false] at hsp
+      rw [hsp] at hdi hok
+      have := enc_dec cfg.cap body _ _ _ _ _ _ hok hnf hdi
+      exact ⟨r', by rw [List.append_assoc, ← this]; exact hb4⟩
+    | true =>
+      simp only [if_true] at hsp
+      rw [hsp, decItems_append] at hdi
+      rw [hsp] at hok
+      cases hd1 : decItems cfg.cap body (o0.setNum lay.sigF SIG) (b.drop (0 + 4)) with
+      | none => simp [hd1] at hdi
+      | some q =>
+        obtain ⟨o1, r1⟩ := q
+        simp only [hd1, decItems, decItem, Option.some.injEq, Prod.mk.injEq] at hdi
+        have hok1 : itemsOK [lay.sigF] [] body = true := itemsOK_prefix _ _ _ _ hok
+        have := enc_dec cfg.cap body _ _ _ _ _ _ hok1 hnf hd1
+        rw [← hdi.1]
+        exact ⟨r1, by rw [List.append_assoc, ← this]; exact hb4⟩
 
 end Blf
